@@ -23,11 +23,11 @@ FIXTURES_Q = [
     "colormodes/4x4_16bit_grayscale.psd", "colormodes/4x4_32bit_rgb.psd", "colormodes/4x4_32bit_grayscale.psd",
     "16bit5x5.psd", "32bit5x5.psd", "2layers.psd", "1layer.psd", "transparentbg-gimp.psd", "hidden-layer.psd",
     "group.psd", "clipping-mask2.psd", "layer_params.psd", "gray0.psd", "gray1.psd", "effects/stroke-composite.psd",
-    "opacity-fill.psd", "16bit5x5.psb",
+    "opacity-fill.psd", "16bit5x5.psb", "clipping-mask.psd",
 ]
 STRUCTURAL = ["append-layer", "append-partial", "append-two", "append-remove", "append-group", "group-with-layer", "move-down"]
 CLEAN = ["nothing", "rename", "hide", "opacity", "move-offset", "blend-mode"]
-FIX_STRUCT = ["rotate", "delete-top", "add-group", "add-layer"]
+FIX_STRUCT = ["rotate", "delete-top", "add-group", "add-layer", "delete-clipping"]
 FIX_CLEAN = ["nothing", "rename", "hide", "opacity"]
 _ST = None
 
@@ -141,6 +141,13 @@ def make_fixture_doc(c):
             psd[-1].delete_layer()
     elif hist == "add-group":
         psd.append(Group.new("g"))
+    elif hist == "delete-clipping":
+        # remove every clipping layer, the last one last (the relation must be reset each time)
+        clipped = [l for l in psd.descendants() if l.clipping_layer]
+        if not clipped:
+            psd.append(Group.new("g"))
+        for l in clipped:
+            l.delete_layer()
     elif hist == "add-layer" and psd.depth != 8:
         psd.append(Group.new("g"))  # frompil layers are 8-bit only (F-C07-7)
     elif hist == "add-layer":
@@ -201,7 +208,8 @@ def judge(ck, c, psd, dirty, orig, keep=None, render_always=False, **tag):
         ck.count("out-of-scope colour mode %s" % psd.color_mode.name)
         return None
     info = dict(mode=int(psd.color_mode), channels=hd.channels, depth=hd.depth, w=hd.width, h=hd.height,
-                comp=int(psd._record.image_data.compression), dirty=dirty, clipping=has_clipping(psd), icc=has_icc(psd))
+                comp=int(psd._record.image_data.compression), dirty=dirty, clipping=has_clipping(psd), icc=has_icc(psd),
+                nlayers=len(psd))
     info.update(tag)
     ck.count("mode:%d ch:%d depth:%d" % (info["mode"], info["channels"], info["depth"]))
     ck.count("merged-compression:%s" % pc.COMP_NAMES[info["comp"]])
@@ -378,6 +386,20 @@ SEQUENCES = {
     "edit-save-save": ["S:two", "save", "save"],
     "edit-save-hide-save-show-save": ["S:two", "save", "A:hide", "save", "A:show", "save"],
     "edit-save-remove-save": ["S:two", "save", "S:remove", "save"],
+    # clipping layers: base + clipped layer(s); the relation must follow every removal / flag change
+    "clip-save-remove-save": ["S:clip", "save", "S:remove", "save"],
+    "clip-save-pop-save": ["S:clip", "save", "S:pop", "save"],
+    "clip-save-del-save": ["S:clip", "save", "S:del", "save"],
+    "clip-save-delete_layer-save": ["S:clip", "save", "S:delete_layer", "save"],
+    "clip-remove-save": ["S:clip", "S:remove", "save"],
+    "clip-pop-save-save": ["S:clip", "S:pop", "save", "save"],
+    "clip2-save-remove-remove-save": ["S:clip2", "save", "S:remove", "S:remove", "save"],
+    "clip-save-unflag-save": ["S:clip", "save", "A:unflag", "save"],
+    "clip-save-hide-save": ["S:clip", "save", "A:hide", "save"],
+    "clip-save-hidebase-save": ["S:clip", "save", "A:hidebase", "save"],
+    "clip-save-clear-save": ["S:clip", "save", "S:clear", "save"],
+    "clip-save-removebase-save": ["S:clip", "save", "S:removebase", "save"],
+    "two-save-flag-save": ["S:two", "save", "A:flag", "save"],
 }
 
 
@@ -398,8 +420,34 @@ def apply_step(psd, c, step, dm):
         psd.append(pix(33, 1, 0, w - 1, h - 1))
     elif step == "S:another":
         psd.append(pix(34, 0, 1, w - 2, h - 1))
+    elif step == "S:clip":
+        psd.append(pix(35, 1, 1, w - 2, h - 2))      # base
+        psd.append(pix(36, 0, 0, w - 1, h - 1))      # clipped onto the base
+        psd[-1].clipping_layer = True
+    elif step == "S:clip2":
+        psd.append(pix(35, 1, 1, w - 2, h - 2))
+        psd.append(pix(36, 0, 0, w - 1, h - 1))
+        psd[-1].clipping_layer = True
+        psd.append(pix(37, 2, 0, w - 2, h - 1))
+        psd[-1].clipping_layer = True
     elif step == "S:remove":
         psd.remove(psd[-1])
+    elif step == "S:pop":
+        psd.pop()
+    elif step == "S:del":
+        del psd[len(psd) - 1]
+    elif step == "S:delete_layer":
+        psd[-1].delete_layer()
+    elif step == "S:clear":
+        psd.clear()
+    elif step == "S:removebase":
+        psd.remove(psd[0])
+    elif step == "A:unflag":
+        psd[-1].clipping_layer = False
+    elif step == "A:flag":
+        psd[-1].clipping_layer = True
+    elif step == "A:hidebase":
+        psd[0].visible = False
     elif step == "A:hide":
         psd[-1].visible = False
     elif step == "A:show":
@@ -547,7 +595,10 @@ def _cm_gray_rgb(fl):
 
 core.KNOWN_CLASSIFIERS["F-C17-1"] = lambda fl: (
     fl.get("dirty") and fl.get("depth") == 8 and _cm_gray_rgb(fl) and fl.get("channels") != NCOLOR[fl["mode"]] + 1
-    and fl["kind"] in ("section-mismatch", "readback-raises", "merged-ne-composite")
+    and (fl["kind"] in ("section-mismatch", "readback-raises", "merged-ne-composite")
+         # a later save of the same object, emptied meanwhile, composites from the merged image the earlier save broke
+         or (fl["kind"] == "save-raises" and fl.get("exc") in ("AssertionError", "ValueError") and fl.get("nlayers") == 0
+             and fl.get("save_index", 0) >= 1))
     and (fl["kind"] != "readback-raises" or fl.get("exc") == "AssertionError"
          or (fl.get("exc") == "ValueError" and fl.get("comp") == 1 and fl.get("channels") > NCOLOR[fl["mode"]] + 1))
     and (fl["kind"] != "merged-ne-composite" or fl.get("partial_alpha_only")))
